@@ -9,6 +9,11 @@
 (* (instants; the zone the bounds were written in is recorded but is not   *)
 (* part of the meaning of the query) and the returned entries (projected   *)
 (* to entry ids; 0 = an entry that is not byte-for-byte one of the table). *)
+(* A "stats" line is another reader of the history between two queries     *)
+(* (the real fe.api.df_model_statistics; and after every find the harness  *)
+(* scribbles on the entries it was handed - the caller's own copies): by   *)
+(* the property it changes nothing, so the queries after it are judged by  *)
+(* the same FindOK against the same `appended`.                            *)
 (* TLC evaluates the property level of Chronicle on every line (CLAUSE     *)
 (* rows, never aborting) and compares with the implementation-shaped       *)
 (* operators (DRIFT rows, not an alarm).                                   *)
@@ -58,6 +63,14 @@ Step(r) ==
            /\ bad' = IF why' = {} THEN {} ELSE {IF r.ev = "find" THEN "C18.FindOK" ELSE "C18.ApiFindOK"}
            /\ drift' = LET m == IF r.ev = "find" THEN FindImpl(journal, q') ELSE ApiImpl(journal, q') IN
                        IF r.obs.err # "" THEN m # <<0>> ELSE m # res'
+      [] r.ev = "stats" ->   \* another reader ran (files read back after it): nothing may have changed
+           /\ journal' = JOf(r.st.files)
+           /\ UNCHANGED appended
+           /\ kind' = "stats" /\ q' = NoQ /\ res' = <<>>
+           /\ why' = (IF r.obs.err # "" THEN {"error"} ELSE {})
+                     \cup (IF Foreign(journal') \/ JBag(journal') # JBag(journal) THEN {"files-changed"} ELSE {})
+           /\ bad' = IF why' = {} THEN {} ELSE {"C18.ReadOnly"}
+           /\ drift' = (journal' # journal)
       [] OTHER ->
            /\ UNCHANGED vars
            /\ why' = {"unknown-event"} /\ bad' = {"C18.AppendOnce"} /\ drift' = FALSE
